@@ -57,12 +57,15 @@ Init == so = InitSObj /\ gens = <<>> /\ steps = 0
 
 \* what another listing does disturbs a listing only once it has been started (its first next() resets everything it
 \* reads: thread map, a fresh TracesParser) - except a callstack listing, whose image table is reset when it is REQUESTED
+\* REQUESTING a listing changes nothing the others read - except that requesting callstacks resets the image table
+DisturbOpen(gs, kind) == [j \in 1..Len(gs) |-> IF kind = "cs" /\ gs[j].kind = "cs" /\ ~gs[j].done
+                                                THEN [gs[j] EXCEPT !.clean = FALSE] ELSE gs[j]]
 Disturb(gs, except) == [j \in 1..Len(gs) |-> IF j # except /\ ~gs[j].done /\ (gs[j].started \/ gs[j].kind = "cs")
                                                THEN [gs[j] EXCEPT !.clean = FALSE] ELSE gs[j]]
 
 Open == /\ Len(gens) < MaxGens
         /\ \E kind \in Kinds, d \in 1..Len(Dumps) : \E c \in CodesFor(kind) :
-              /\ gens' = Append(Disturb(gens, 0), NewGen(so, kind, d, c))
+              /\ gens' = Append(DisturbOpen(gens, kind), NewGen(so, kind, d, c))
               /\ so' = OpenObj(so, kind, d, c)
 Advance == \E i \in 1..Len(gens) :
              /\ ~gens[i].done /\ ~gens[i].dirty
